@@ -22,6 +22,12 @@ VOCAB = KEYWORDS + reftok.PUNCT + WORDS + DIGITS + STRINGS + INVALID
 SEPS = ["", " ", "\t", "\n", "\r\n", " // c\n"]
 
 
+# a pair of tokens after a leading line, after non-ASCII comments and strings on the same and on earlier lines, after a
+# multi-line string, after tabs, before a comment that ends the text without a newline: positions in every such context
+CONTEXTS = ["x\n{a} {b}\n;", "// \u00e9 \u4e2d \U0001F600\n{a} {b}", "{a} {b} // end", "\"\u00e9\u4e2d\" {a}\t{b}", "\"l1\nl2\r\nl3\" {a} {b}",
+            "{a}\r\n\r\n{b}", "\t{a}\t\t{b} ", "x // \u00e9\r\n  {a} {b} // \U0001F600", "{a} {b}//"]
+
+
 def compare(text, probe, res, what):
     """tokenize text with ucg and with the reference; record a violation on disagreement"""
     try:
@@ -90,9 +96,10 @@ def task_pairs(args):
                 res.case(text)
                 compare(text, probe, res, "pair")
                 # the same pair after a leading line and before a trailing token: positions on later lines
-            text = "x\n" + a + " " + b + "\n;"
-            res.case(text)
-            compare(text, probe, res, "pair-in-context")
+            for ctx in CONTEXTS:
+                text = ctx.replace("{a}", a).replace("{b}", b)
+                res.case(text)
+                compare(text, probe, res, "pair-in-context")
     res.count("pairs_judged", (hi - lo) * len(VOCAB))
     if lo == 0:
         res.sample({"text": VOCAB[3] + SEPS[5] + VOCAB[40], "kind": "pair"})
